@@ -153,7 +153,8 @@ func (s *Scanner) scanIdent() (tok Token, lit string) {
 			return GAP, buf.String()
 		case "MATRIX":
 			return MATRIX, buf.String()
-		case "END":
+		case "END", "ENDBLOCK":
+			// ENDBLOCK is the standard synonym of END
 			return END, buf.String()
 		default:
 			return IDENT, buf.String()
